@@ -24,6 +24,8 @@ type c17Popts struct {
 	RTTL int64  `json:"rttl_ms,omitempty"`
 	Ver  uint64 `json:"ver,omitempty"`
 	Vep  int    `json:"vep,omitempty"`
+	// Tags are attached to the real publication only (tags filters of C02/C03); the broker model ignores them.
+	Tags map[string]string `json:"tags,omitempty"`
 }
 
 type c17Since struct {
@@ -319,6 +321,7 @@ func (e *c17Env) pubOptions(p *c17Popts) PublishOptions {
 		HistoryMetaTTL:      time.Duration(p.Meta) * time.Millisecond,
 		IdempotentResultTTL: time.Duration(p.RTTL) * time.Millisecond,
 		Version:             p.Ver,
+		Tags:                p.Tags,
 	}
 	if p.Key != 0 {
 		o.IdempotencyKey = "k" + strconv.Itoa(p.Key)
